@@ -183,11 +183,16 @@ def cases(draw, backend):
     head = subst(parse(f"Select(SelectMany(DS, lambda e: e.{acc}(BANK)), lambda j: ROW)"),
                  {"DS": ds, "BANK": C(bank), "ROW": ast.Tuple(elts=[c[0] for c in cols], ctx=ast.Load())})
     q = ast.Call(func=ast.Name(id="ResultTTree", ctx=ast.Load()), args=[head, ast.List(elts=[C(n) for n in names], ctx=ast.Load()), C(tree), C("out.root")], keywords=[])
+    if draw(st.integers(0, 3)) == 0 and len(set(names)) == len(names):
+        # the other route to column names: the keys of a dictionary row (the tree then has the back end's default name)
+        q = subst(parse(f"Select(SelectMany(DS, lambda e: e.{acc}(BANK)), lambda j: ROW)"),
+                  {"DS": ds, "BANK": C(bank), "ROW": ast.Dict(keys=[C(n) for n in names], values=[c[0] for c in cols])})
+        tree = None
     q = ast.fix_missing_locations(q)
     evs = draw(events_strategy(sch, [(acc, bank)], n_min=1, n_max=2, attr_names=[a for a in attrs if representable(a)], null_links=False))
-    lits = [bank, tree] + [c[1] for c in cols] + names
+    lits = [bank, tree if tree is not None else "default-tree-name"] + [c[1] for c in cols] + names
     col_kinds = {i: k for i, k in col_kinds.items() if i < len(cols)}
-    return {"col_kinds": col_kinds, "backend": backend, "ast": q, "lits": lits, "positions": ["bank", "tree"] + [c[2] for c in cols] + ["colname"] * len(names), "wire": wire, "evs": evs,
+    return {"col_kinds": col_kinds, "backend": backend, "ast": q, "lits": lits, "positions": ["bank", "tree"] + [c[2] for c in cols] + ["colname" if tree is not None else "dict-key"] * len(names), "wire": wire, "evs": evs,
             "bank": bank, "tree": tree, "names": names, "acc": acc}
 
 
@@ -228,7 +233,7 @@ def check(c):
             if b.encode("utf-8", "surrogateescape") != bank_b:
                 raise Violation("bank-name", f"bank requested as {b!r}, the query says {c['bank']!r}", rep)
     trees = set(out["booktrees"])
-    if trees != {c["tree"]}:
+    if c["tree"] is not None and trees != {c["tree"]}:
         raise Violation("tree-name", f"tree booked as {sorted(trees)!r}, the query says {c['tree']!r}", rep)
     got = [b["name"] for b in out["book"]]
     if got != c["names"]:
